@@ -180,6 +180,8 @@ def tree_checks(pairs, text, start, rule, names, tags, rule_silent):
     return probs, events
 
 
+DOC_BODY = 'a\\u{41} \\x41 \\N{DASH} \\d "double" \'single\' """ {braces} %s #{x} ends with a backslash \\'
+DOC_HEAD = f"//! grammar: {DOC_BODY}\n//! \\\n"
 _tok_fh = None
 
 
@@ -331,8 +333,18 @@ def process_lines(args):
             continue
         ctx = {"rule": cfg.get("rule", "r"), "modes": cfg["modes"], "parsers": {}, "g": g, "alt_prefix": lambda s: "".join("b" if ch != "b" else "a" for ch in s)}
         try:
+            # the generated module comes from the SAME Parser object the interpreter runs (C01's statement); every other grammar
+            # is loaded with debug=True (a documented keyword: the optimizer then logs - and str()s - what it rewrites); every
+            # third grammar carries doc comments full of characters that mean something inside a Python string literal
+            dbg = res["grammars"] % 2 == 0
+            text_for_build = DOC_HEAD + "".join(f"/// rule {i}: {DOC_BODY}\n{ln}\n" for i, ln in enumerate(gtext.splitlines())) if res["grammars"] % 3 == 0 else gtext
+            bases = {}
             for mode in cfg["build_modes"]:
-                ctx["parsers"][mode], _ = M.build(_pest, gtext, mode)
+                bk = "opt" if mode in ("opt", "optgen") else "interp"
+                if bk not in bases:
+                    with M.watchdog(30):
+                        bases[bk] = _pest.Parser.from_grammar(text_for_build, optimizer=M.optimizer_for(_pest) if bk == "opt" else None, debug=dbg and bk == "opt")
+                ctx["parsers"][mode] = M.Generated(bases[bk].generate()) if mode in ("gen", "optgen") else bases[bk]
         except Exception as e:  # noqa: BLE001
             res["nviol"] += 1
             if len(res["viol"]) < 10:
